@@ -947,6 +947,10 @@ func init() {
 	natives["math/rand.Int"] = func(fr *frame, a []value) value { return 0 }
 	natives["math/rand.Float64"] = func(fr *frame, a []value) value { return 0.5 }
 	natives["math/rand/v2.Shuffle"] = noop
+	natives["math/rand/v2.Int"] = func(fr *frame, a []value) value { return 0 }
+	natives["math/rand/v2.Uint64"] = func(fr *frame, a []value) value { return uint64(0) }
+	natives["math/rand/v2.Uint32"] = func(fr *frame, a []value) value { return uint32(0) }
+	natives["math/rand/v2.Int64"] = func(fr *frame, a []value) value { return int64(0) }
 	natives["math/rand/v2.IntN"] = func(fr *frame, a []value) value { return 0 }
 	natives["math/rand/v2.Int64N"] = func(fr *frame, a []value) value { return int64(0) }
 	natives["math/rand/v2.Float64"] = func(fr *frame, a []value) value { return 0.5 }
